@@ -9,7 +9,8 @@ def check(tier, seed):
     guards = [("contracts.bd_guards", "unit_h0_guards", {"nb": nb, "hermitian": h, "timeout_ms": t}) for nb, h in ((2, True), (2, False), (3, True))]
     if tier == "thorough":
         guards += [("contracts.bd_guards", "unit_h0_guards", {"nb": 3, "hermitian": False, "timeout_ms": t}), ("contracts.bd_guards", "unit_h0_guards", {"nb": 1, "hermitian": True, "timeout_ms": t})]
-    guards += [("contracts.bd_guards", "unit_check_biorthonormality", {"nsub": n, "timeout_ms": t}) for n in (1, 2, 3)]
+    guards += [("contracts.bd_guards", "unit_check_biorthonormality", {"nsub": n, "kind": k, "timeout_ms": t})
+               for n, k in ((1, "ndarray"), (2, "ndarray"), (3, "ndarray"), (2, "sparse-array"), (2, "sparse-matrix"), (3, "mixed"), (1, "sympy-mutable"), (2, "sympy-immutable"), (3, "sympy-mutable"))]
     guards += [("contracts.bd_guards", "unit_normalize_subspaces", {"timeout_ms": t}), ("contracts.bd_guards", "unit_preprocess_sylvester", {"timeout_ms": t})]
     from .format_props import specs_linalg_misc, specs_keys
     d.add_units(fold_canaries(run_units(specs_solver(tier) + specs_masks(tier) + guards + specs_keys(tier) + specs_linalg_misc(tier))))
@@ -28,5 +29,10 @@ def check(tier, seed):
                      "asymmetric in Hermitian mode raise ValueError; eliminated elements always have |E_a-E_c| > atol.  The H_0 guard of block_diagonalize raises ValueError "
                      "iff some zeroth-order off-diagonal block - for every pair of blocks, the implicit one included - is a numeric non-zero value, and iff the whole diagonal "
                      "is zero; the format converters reject prefactors in monomial keys, non-commutative symbols, non-Hermitian Taylor coefficients and unsupported types.")
+    d.add_callsite_witness("callsite:illposed/implicit-block-sharing-an-explicit-energy-is-rejected", "bd_battery.py", "impl_shared_finding",
+                           "an energy shared between an explicit level and the implicit block is rejected with one of the listed exception classes; the witness is replayed on every run")
+    d.add_callsite_witness("callsite:illposed/biorthonormality-test-uses-atol-only", "bd_battery.py", "ortho_rtol_finding",
+                           "the (bi)orthonormality test has no tolerance besides atol (the contract of _check_biorthonormality treats np.allclose as an opaque predicate of overlap, identity and atol; "
+                           "its hidden default rtol is outside that contract); the witness is replayed on every run")
     d.run_battery("bd_battery.py", ["illposed"], "fixed list of ill-posed input classes x request orders x outputs x modes on 2-4 dimensional problems; see replay/bd_battery.py")
     return d.finish(level="proof", trusted_base=["contracts/sylvester.py", "contracts/bd_masks.py", "pyvc/pw.py"])
